@@ -116,7 +116,7 @@ def run(ck, m):
     TABLES = {"_ALL_DEFAULT_ARGS", "_RENDER_DATA_MRO", "_FIELDS", "_namespaces"}
     n2 = 0
     for rel in (TY, RN, "render/_iterator.py"):
-        for t, st in stores_in(m.tree(rel), local=False):
+        for _r, _q, t, st in m.stores(rel):
             name = None
             if isinstance(t, ast.Attribute) and t.attr in TABLES:
                 name = t.attr
